@@ -70,6 +70,7 @@ type DaemonScenario struct {
 	Script     []Act         `json:"script,omitempty"`
 	HealAtMs   int64         `json:"heal_at_ms"`
 	BeaconIDs  []string      `json:"beacon_ids,omitempty"` // default: ["default"]
+	FreshIDs   []string      `json:"fresh_ids,omitempty"`  // further chains the daemons hold keys for but never run a key generation of (no group)
 	DKGOnly    bool          `json:"dkg_only,omitempty"`
 	Crash      *CrashPlan    `json:"crash,omitempty"`
 	DKGFault   *DKGFault     `json:"dkg_fault,omitempty"`
@@ -459,7 +460,7 @@ func (e *daemonEngine) startDaemon(n *dNode, fresh bool) error {
 		return fmt.Errorf("NewDrandDaemon: %w", err)
 	}
 	if fresh {
-		for _, id := range e.beaconIDs() {
+		for _, id := range append(append([]string(nil), e.beaconIDs()...), e.sc.FreshIDs...) {
 			ks := key.NewFileStore(conf.ConfigFolderMB(), id)
 			if err := ks.SaveKeyPair(n.pairs[id]); err != nil {
 				return err
@@ -579,6 +580,13 @@ func (e *daemonEngine) setup() error {
 		}
 		for _, id := range e.beaconIDs() {
 			p, err := seededPair(n.addr, e.chains[id].sch, H64(sc.Seed, "pair", i, id))
+			if err != nil {
+				return err
+			}
+			n.pairs[id] = p
+		}
+		for _, id := range sc.FreshIDs {
+			p, err := seededPair(n.addr, e.chains[e.beaconIDs()[len(e.beaconIDs())-1]].sch, H64(sc.Seed, "pair", i, id))
 			if err != nil {
 				return err
 			}
